@@ -6,7 +6,8 @@ from pyvc.se import *
 F = 'xmlschema/resources/sax.py'
 
 t = Target('sax.SafeExpatParser.reset', ['C13'], F, 'SafeExpatParser.reset',
-           note='after reset() the three expat handlers EntityDeclHandler, UnparsedEntityDeclHandler and ExternalEntityRefHandler are the forbid_* methods of the parser, and parameter-entity '
+           note='after reset() the three expat handlers EntityDeclHandler, UnparsedEntityDeclHandler and ExternalEntityRefHandler are the forbid_* methods of the parser, the start / end of the '
+                'DOCTYPE declaration are tracked (in_doctype starts False), and parameter-entity '
                 'parsing is ALWAYS (expat then reports the external DTD subset to the handler also for standalone documents; UNLESS_STANDALONE / NEVER would silence it)',
            assumes=['pyexpat: XML_PARAM_ENTITY_PARSING_NEVER / UNLESS_STANDALONE / ALWAYS = 0 / 1 / 2; the external subset is reported through ExternalEntityRefHandler only when parameter-entity parsing applies'])
 
@@ -17,7 +18,8 @@ def _(run):
     st.objf['parser'] = {}
     st.objf['self'] = {'_parser': VObj('parser'), 'forbid_entity_declaration': VStr(SV('forbid_entity_declaration')),
                        'forbid_unparsed_entity_declaration': VStr(SV('forbid_unparsed_entity_declaration')),
-                       'forbid_external_entity_reference': VStr(SV('forbid_external_entity_reference'))}
+                       'forbid_external_entity_reference': VStr(SV('forbid_external_entity_reference')),
+                       'start_doctype_declaration': VStr(SV('start_doctype_declaration')), 'end_doctype_declaration': VStr(SV('end_doctype_declaration')), 'in_doctype': VBool(z3.Bool('in_doctype_before'))}
     st.env['self'] = VObj('self')
     ex.callees['super'] = lambda e, s, r, a, k: VObj('super_'); st.objf['super_'] = {}
     ex.callees['reset'] = lambda e, s, r, a, k: NONE
@@ -32,7 +34,12 @@ def _(run):
     def post(kind, v, s):
         f = s.objf['parser']
         return z3.And(*[(f[h].t == SV(m)) if isinstance(f.get(h), VStr) else z3.BoolVal(False) for h, m in want.items()])
-    run.post(ex, outs, pre, {'forbidding-handlers-installed': post,
+    def doctype_tracked(kind, v, s):
+        f = s.objf['parser']; me = s.objf['self']
+        return z3.And((f['StartDoctypeDeclHandler'].t == SV('start_doctype_declaration')) if isinstance(f.get('StartDoctypeDeclHandler'), VStr) else z3.BoolVal(False),
+                      (f['EndDoctypeDeclHandler'].t == SV('end_doctype_declaration')) if isinstance(f.get('EndDoctypeDeclHandler'), VStr) else z3.BoolVal(False),
+                      z3.Not(me['in_doctype'].t) if isinstance(me.get('in_doctype'), VBool) else z3.BoolVal(False))
+    run.post(ex, outs, pre, {'forbidding-handlers-installed': post, 'the-doctype-declaration-is-tracked-from-a-clean-state': doctype_tracked,
                              'external-subset-reported-also-for-standalone-documents': lambda kind, v, s: (s.ghost['pe_mode'].t == 2) if isinstance(s.ghost['pe_mode'], VInt) else z3.BoolVal(False)})
 
 
@@ -54,7 +61,8 @@ for _n in ('forbid_entity_declaration', 'forbid_unparsed_entity_declaration', 'f
 
 
 t = Target('sax.defuse_xml.scan', ['C13'], F, 'defuse_xml', anchor='parser = SafeExpatParser()', anchor_end='$',
-           note='the parser handed to pulldom.parse is a SafeExpatParser; the scan runs until the first START_ELEMENT (or a syntax error) and not shorter; '
+           note='the parser handed to pulldom.parse is a SafeExpatParser; the scan runs until the first START_ELEMENT (or a syntax error) and not shorter; a syntax error inside the DOCTYPE '
+                'declaration is a refusal (XMLResourceForbidden): the declarations behind it were not seen; '
                 'XMLResourceForbidden raised by a handler is not caught; with rewind the stream is repositioned to 0 on every normal path',
            assumes=['pulldom.parse yields events in document order and calls the handlers of the given parser (expat)', 'the XML grammar puts the DTD before the root start tag'])
 
@@ -65,7 +73,9 @@ def _(run):
     from xmlschema.exceptions import XMLResourceForbidden, XMLResourceOSError
     ex = run.exec(); st = new_state()
     st.objf['fp'] = {}; st.env.update(fp=VObj('fp'), rewind=VBool(z3.Bool('rewind')))
-    ex.callees['SafeExpatParser'] = lambda e, s, r, a, k: VStr(SV('SafeExpatParser-instance'))
+    in_dtd = z3.Bool('syntax_error_inside_the_doctype_declaration')
+    st.objf['safe_parser'] = {'in_doctype': VBool(in_dtd)}
+    ex.callees['SafeExpatParser'] = lambda e, s, r, a, k: VObj('safe_parser')
     ex.names[('pulldom', 'START_ELEMENT')] = VStr(SV('START_ELEMENT'))
     ex.exc_lookup['SAXParseException'] = SAXParseException
     st.ghost['parser_arg'] = None; st.ghost['seeks'] = 0
@@ -102,10 +112,11 @@ def _(run):
 
     def post(kind, v, s):
         forb = isinstance(v, VExc) and v.cls is not None and issubclass(v.cls, XMLResourceForbidden)
-        if kind == 'raise': return z3.And(z3.Or(scan == 2, scan == 3), z3.BoolVal(forb) == (scan == 2),
+        # a syntax error INSIDE the DTD: the declarations after it were not seen, so the source is refused like a forbidden one; elsewhere a syntax error is left to the real parser
+        if kind == 'raise': return z3.And(z3.Or(scan == 2, scan == 3, z3.And(scan == 1, in_dtd)), z3.BoolVal(forb) == z3.Or(scan == 2, z3.And(scan == 1, in_dtd)),
                                           z3.Implies(scan == 3, z3.BoolVal(isinstance(v, VExc) and v.cls is not None and issubclass(v.cls, XMLResourceOSError))))
-        return z3.And(scan != 2, scan != 3, z3.If(z3.Bool('rewind'), z3.And(z3.BoolVal(s.ghost['seeks'] == 1), s.ghost.get('seek_arg', z3.IntVal(-1)) == 0), z3.BoolVal(s.ghost['seeks'] == 0)))
-    parser_ok = lambda kind, v, s: z3.BoolVal(isinstance(s.ghost['parser_arg'], VStr) and z3.is_string_value(s.ghost['parser_arg'].t) and s.ghost['parser_arg'].t.as_string() == 'SafeExpatParser-instance')
+        return z3.And(scan != 2, scan != 3, z3.Not(z3.And(scan == 1, in_dtd)), z3.If(z3.Bool('rewind'), z3.And(z3.BoolVal(s.ghost['seeks'] == 1), s.ghost.get('seek_arg', z3.IntVal(-1)) == 0), z3.BoolVal(s.ghost['seeks'] == 0)))
+    parser_ok = lambda kind, v, s: z3.BoolVal(isinstance(s.ghost['parser_arg'], VObj) and s.ghost['parser_arg'].name == 'safe_parser')
     run.post(ex, outs, pre, {'forbidden-propagates-and-stream-rewound': post, 'scanned-with-the-safe-parser': parser_ok})
 
 
